@@ -37,7 +37,7 @@ def cases(tier, seed):
         shape = [int(rng.integers(1, 5)) for _ in range(nd)]
         cs.append(dict(kind='ops', type=t, shape=shape, cplx=bool(rng.random() < 0.4), single=bool(rng.random() < 0.3), nops=int(rng.integers(10, 41)), seed=int(rng.integers(0, 2**31)), _cost=1))
     for i in range(60 if tier == 'quick' else 1200):
-        cs.append(dict(kind='run', which=i % 12, procs=int(rng.integers(1, 5)), nlev=int(rng.choice([1, 1, 2])), nsteps=int(rng.integers(1, 7)), hook=['step', 'iter'][i % 2], seed=int(rng.integers(0, 2**31)), _cost=20))
+        cs.append(dict(kind='run', which=i % 14, procs=int(rng.integers(1, 5)), nlev=int(rng.choice([1, 1, 2])), nsteps=int(rng.integers(1, 7)), hook=['step', 'iter'][i % 2], seed=int(rng.integers(0, 2**31)), _cost=20))
     return cs
 
 
@@ -365,6 +365,8 @@ def run_run(case, r):
         ('ARK54', ARK54, hp.DenseIMEX, dict(A=A, B=B, **forcing), None),
         ('IMEXEulerStifflyAccurate', IMEXEulerStifflyAccurate, hp.DenseIMEX, dict(A=A, B=B, **forcing), None),
         ('paradiag', None, None, None, None),
+        ('verlet', 'particles', None, None, None),
+        ('boris_2nd_order', 'particles', None, None, None),
         ('FullyImplicitDAE', 'dae', None, None, None),
         ('SemiImplicitDAE', 'dae', None, None, None),
     ]
@@ -380,7 +382,7 @@ def run_run(case, r):
         def _rec(self, step, level_number):
             L = step.levels[level_number]
             if L.uend is not None:
-                logged_at.append((round(L.time + L.dt, 12), step.status.iter, id(L.uend), digest(L.uend)))
+                logged_at.append((round(L.time + L.dt, 12), step.status.iter, id(L.uend), dgo(L.uend)))
 
         def post_step(self, step, level_number):
             super().post_step(step, level_number)
@@ -393,6 +395,11 @@ def run_run(case, r):
                 self._rec(step, level_number)
 
     loghook = LogSolution if case['hook'] == 'step' else LogSolutionAfterIteration
+
+    def dgo(o):
+        # particle data own several arrays (positions, velocities, charges, masses)
+        return tuple(digest(b) for b in allbufs(o)) if type(o).__name__ in ('particles', 'fields', 'acceleration') else digest(o)
+
     if sw == 'dae':
         procs = 1  # the controller's forward transfer evaluates f(u, t); DAE problems need f(u, du, t): single step per block only
         from pySDC.projects.DAE.problems.discontinuousTestDAE import DiscontinuousTestDAE
@@ -402,6 +409,23 @@ def run_run(case, r):
         desc = dict(problem_class=DiscontinuousTestDAE, problem_params=dict(newton_tol=1e-8), sweeper_class=FullyImplicitDAE if name == 'FullyImplicitDAE' else SemiImplicitDAE,
                     sweeper_params=dict(quad_type='RADAU-RIGHT', num_nodes=3, QI='IE'), level_params=dict(dt=dt, restol=-1), step_params=dict(maxiter=3))
         ctrl = controller_nonMPI(procs, dict(logger_level=50, dump_setup=False, hook_class=[loghook, DigestAtLogTime]), desc)
+    elif sw == 'particles':
+        procs, nlev = 1, 1
+        if name == 'verlet':
+            from pySDC.implementations.problem_classes.OuterSolarSystem import outer_solar_system
+            from pySDC.implementations.sweeper_classes.verlet import verlet
+
+            desc = dict(problem_class=outer_solar_system, problem_params=dict(sun_only=False), sweeper_class=verlet, sweeper_params=dict(num_nodes=3, quad_type='LOBATTO', QI='IE', QE='PIC'),
+                        level_params=dict(dt=10.0, restol=-1), step_params=dict(maxiter=3))
+            dt = 10.0
+        else:
+            from pySDC.implementations.problem_classes.PenningTrap_3D import penningtrap
+            from pySDC.implementations.sweeper_classes.boris_2nd_order import boris_2nd_order
+
+            desc = dict(problem_class=penningtrap, problem_params=dict(omega_B=25.0, omega_E=4.9, u0=np.array([[10, 0, 0], [100, 0, 100], [1], [1]], dtype=object), nparts=2, sig=0.1), sweeper_class=boris_2nd_order,
+                        sweeper_params=dict(num_nodes=3, quad_type='LOBATTO'), level_params=dict(dt=0.01, restol=-1), step_params=dict(maxiter=3))
+            dt = 0.01
+        ctrl = controller_nonMPI(1, dict(logger_level=50, dump_setup=False, hook_class=[loghook, DigestAtLogTime]), desc)
     elif name == 'paradiag':
         from pySDC.implementations.controller_classes.controller_ParaDiag_nonMPI import controller_ParaDiag_nonMPI
         from pySDC.implementations.problem_classes.TestEquation_0D import testequation0d
@@ -426,13 +450,15 @@ def run_run(case, r):
     t_start = 1.0 if sw == 'dae' else 0.0
     if sw == 'dae':
         u0 = P.u_exact(t_start)
+    elif sw == 'particles':
+        u0 = P.u_exact(0.0) if name == 'verlet' else P.u_init()
     else:
         u0 = P.u_init
         u0[...] = rng.standard_normal(np.asarray(u0).shape)
-    d_u0 = digest(u0)
+    d_u0 = dgo(u0)
     uend1, stats1 = ctrl.run(u0, t_start, t_start + nsteps * dt - 1e-9)
-    r.check(digest(u0) == d_u0, 'caller-u0-unchanged', f'{tag}: run() modified the initial value object passed by the caller')
-    r.check(not np.shares_memory(np.asarray(uend1), np.asarray(u0)), 'returned-not-callers-object', f'{tag}: returned value shares memory with the caller\'s u0')
+    r.check(dgo(u0) == d_u0, 'caller-u0-unchanged', f'{tag}: run() modified the initial value object passed by the caller')
+    r.check(not any(np.shares_memory(x, y) for x in allbufs(uend1) for y in allbufs(u0)), 'returned-not-callers-object', f'{tag}: returned value shares memory with the caller\'s u0')
     entries = [(k, v) for k, v in stats1.items() if k.type == 'u']
     at_log = {}
     for (t, it, oid, dgst) in logged_at:
@@ -441,23 +467,27 @@ def run_run(case, r):
     for k, v in entries:
         key = (round(k.time, 12), k.iter)
         if key in at_log:
-            r.check(digest(v) == at_log[key], 'logged-value-frozen', f'{tag}: the solution logged at t={k.time} (iter {k.iter}) changed after it was logged')
+            r.check(dgo(v) == at_log[key], 'logged-value-frozen', f'{tag}: the solution logged at t={k.time} (iter {k.iter}) changed after it was logged')
             tracked += 1
     r.check(tracked >= 1, 'logged-values-tracked', f'{tag}: no logged value could be matched with its log-time digest ({len(entries)} entries, {len(logged_at)} log events)')
-    d_end1 = digest(uend1)
-    d_entries = [(k, digest(v)) for k, v in entries]
+    d_end1 = dgo(uend1)
+    d_entries = [(k, dgo(v)) for k, v in entries]
     # second run on the same controller, different data
     logged_at.clear()
     if sw == 'dae':
         u0b = P.u_exact(t_start + 0.1)
+    elif sw == 'particles':
+        u0b = P.dtype_u(u0)
+        for b_ in bufs(u0b):
+            b_ *= 1.01
     else:
         u0b = P.u_init
         u0b[...] = rng.standard_normal(np.asarray(u0b).shape)
     uend2, stats2 = ctrl.run(u0b, t_start, t_start + nsteps * dt - 1e-9)
-    r.check(digest(uend1) == d_end1, 'returned-value-survives-next-run', f'{tag}: the value returned by the first run changed during the second run')
+    r.check(dgo(uend1) == d_end1, 'returned-value-survives-next-run', f'{tag}: the value returned by the first run changed during the second run')
     for (k, dgst), (k2, v) in zip(d_entries, entries):
-        r.check(digest(v) == dgst, 'logged-value-survives-next-run', f'{tag}: a solution logged by the first run (t={k.time}) changed during the second run')
-    r.check(digest(u0) == d_u0, 'caller-u0-unchanged', f'{tag}: the first initial value changed during the second run')
+        r.check(dgo(v) == dgst, 'logged-value-survives-next-run', f'{tag}: a solution logged by the first run (t={k.time}) changed during the second run')
+    r.check(dgo(u0) == d_u0, 'caller-u0-unchanged', f'{tag}: the first initial value changed during the second run')
     r.nontrivial = tracked >= 1
     r.observe('sweeper_controller', f'{name}/{case["hook"]}')
     r.count('logged_values_tracked', tracked)
